@@ -30,7 +30,7 @@ EXPLANATION += (' ' + "STATE/per-tune (sa/state.py): no attribute that the parse
 TRUSTED = ['music-theory oracle', 're._parser']
 NOT_DECIDED = ['pitch/onset/duration values over token sequences', 'repeat expansion order', 'key spellings outside the module\'s own table (e.g. K:G#) - outside the property\'s quantifier']
 ASSUMPTIONS = []
-FLOORS = {'TAB': 140, 'MODE': 8, 'TOKEN': 15, 'CONTAIN': 20, 'KEYERR': 3, 'ACC': 3, 'STATE': 2, 'RHYTHM': 3}
+FLOORS = {'TAB': 140, 'MODE': 8, 'TOKEN': 15, 'CONTAIN': 20, 'KEYERR': 3, 'ACC': 3, 'STATE': 2, 'RHYTHM': 3, 'UNIT': 2}
 
 LETTER_PC = {'C': 0, 'D': 2, 'E': 4, 'F': 5, 'G': 7, 'A': 9, 'B': 11}
 LETTERS = 'CDEFGAB'
@@ -82,6 +82,7 @@ def run(ctx):
   keyerrors(ctx, ci, cc)
   accidentals(ctx, ci)
   broken_rhythm(ctx, ci)
+  unit_length(ctx, ci)
   from sa import state
   n = state.check_instance_state(ctx, ci, 'STATE/per-tune')
   ctx.require(n >= 2, 'ABCTune: fewer in-place-mutated attributes than confirmed by hand (%d)' % n)
@@ -505,7 +506,55 @@ def broken_rhythm(ctx, ci):
                norm_text(st[0].value) if st else '?'), construct='broken rhythm shift = len - len / 2**n')
 
 
+# ------------------------------------------------------------------ default unit note length (ABC 2.1, 3.1.7 L:)
+def unit_length(ctx, ci):
+  """No L: field: meter < 0.75 -> 1/16, meter >= 0.75 -> 1/8, free meter -> 1/8.  The meter is touched only
+  through one comparison with a constant, so the three orderings (below, equal, above) decide the rule."""
+  m = ci.methods.get('_set_unit_note_length_from_header')
+  ctx.require(m is not None, 'ABCTune._set_unit_note_length_from_header not found')
+  ratio = roles.assigned_where(m.node, lambda v, st: isinstance(v, ast.BinOp) and isinstance(v.op, ast.Div) and norm_text(v.left).endswith('.numerator') and
+                               norm_text(v.right).endswith('.denominator'))
+  ctx.require(len(ratio) == 1, '_set_unit_note_length_from_header: meter ratio not found')
+  r = ratio[0]
+
+  def length_of(block):
+    for st in block:
+      if isinstance(st, ast.Assign) and norm_text(st.targets[0]).endswith('._current_unit_note_length') and isinstance(st.value, ast.Call) and \
+          (dotted(st.value.func) or '').endswith('Fraction') and len(st.value.args) == 2:
+        a, b = U.const_value(st.value.args[0]), U.const_value(st.value.args[1])
+        if isinstance(a, int) and isinstance(b, int) and b:
+          return (a, b)
+    return None
+
+  br = [st for st in U.walk_stmts(m.node) if isinstance(st, ast.If) and isinstance(st.test, ast.Compare) and len(st.test.ops) == 1 and
+        r in (norm_text(st.test.left), norm_text(st.test.comparators[0]))]
+  ctx.require(len(br) == 1, '_set_unit_note_length_from_header: expected one comparison of the meter with a constant, found %d' % len(br))
+  t = br[0].test
+  other = t.comparators[0] if norm_text(t.left) == r else t.left
+  k = U.const_value(other)
+  ctx.require(isinstance(k, (int, float)), '_set_unit_note_length_from_header: the meter is not compared with a constant')
+  import operator
+  ops = {ast.Lt: operator.lt, ast.LtE: operator.le, ast.Gt: operator.gt, ast.GtE: operator.ge, ast.Eq: operator.eq, ast.NotEq: operator.ne}
+  f = ops.get(type(t.ops[0]))
+  ctx.require(f is not None, '_set_unit_note_length_from_header: unexpected comparison operator')
+  got = {}
+  for label, val in (('below', k - 0.25), ('equal', k), ('above', k + 0.25)):
+    taken = f(val, k) if norm_text(t.left) == r else f(k, val)
+    got[label] = length_of(br[0].body if taken else br[0].orelse)
+  want = {'below': (1, 16), 'equal': (1, 8), 'above': (1, 8)}
+  ok = k == 0.75 and got == want
+  ctx.ob('UNIT/default-length', m, br[0], ok, 'meter < 3/4 -> L:1/16, meter >= 3/4 -> L:1/8' if ok else
+         'default unit note length by meter (threshold %r): %s; ABC 2.1 says below 0.75 -> 1/16, 0.75 and above -> 1/8' % (k, got), construct='default L: from M:')
+  free = [st for st in U.walk_stmts(m.node) if isinstance(st, ast.If) and norm_text(st.test).replace(' ', '') in ('notself._ns.time_signatures',)]
+  okf = len(free) == 1 and length_of(free[0].body) == (1, 8)
+  ctx.ob('UNIT/free-meter', m, free[0] if free else m.node, okf, 'free meter -> L:1/8' if okf else 'free meter does not default to L:1/8', construct='default L: for free meter')
+
+
 MUTANTS = [
+    Mutant('seed C04_e: a meter of exactly 3/4 gets L:1/16', F, "      if ratio < 0.75:\n        self._current_unit_note_length = Fraction(1, 16)\n      else:\n        self._current_unit_note_length = Fraction(1, 8)",
+           "      if ratio > 0.75:\n        self._current_unit_note_length = Fraction(1, 8)\n      else:\n        self._current_unit_note_length = Fraction(1, 16)", rule='UNIT/default-length'),
+    Mutant('branches swapped with the test negated (harmless)', F, "      if ratio < 0.75:\n        self._current_unit_note_length = Fraction(1, 16)\n      else:\n        self._current_unit_note_length = Fraction(1, 8)",
+           "      if ratio >= 0.75:\n        self._current_unit_note_length = Fraction(1, 8)\n      else:\n        self._current_unit_note_length = Fraction(1, 16)", expect='silent'),
     Mutant('broken rhythm shift len/2**n again (the defect fixed in af186e9)', F, "    time_adj = note1_len - note1_len / (2 ** len(broken_rhythm))", "    time_adj = note1_len / (2 ** len(broken_rhythm))", rule='RHYTHM/shift'),
     Mutant("'<' lengthens the first note", F, "    if broken_rhythm[0] == '<':\n      note1.end_time -= time_adj\n      note2.start_time -= time_adj", "    if broken_rhythm[0] == '<':\n      note1.end_time += time_adj\n      note2.start_time += time_adj", rule='RHYTHM/direction'),
     Mutant('shift written as a product (harmless)', F, "    time_adj = note1_len - note1_len / (2 ** len(broken_rhythm))", "    time_adj = note1_len * (1 - 1 / (2 ** len(broken_rhythm)))", expect='silent'),
